@@ -123,6 +123,12 @@ impl Encoder {
             process_encoding_step(&mut self.steps, step, packet, dest)?;
         }
 
+        // Steps for empty fields emit nothing.  Finish them now so that a packet whose bytes are all in the buffer
+        // is never reported as still in progress.
+        while self.steps.front().is_some_and(|step| is_empty_encoding_step(step, packet)) {
+            self.steps.pop_front();
+        }
+
         if capacity != dest.capacity() {
             panic!("Encoder::encode: encoding logic resized dest buffer");
         }
@@ -607,6 +613,17 @@ fn process_byte_slice_encoding(bytes: &[u8], offset: usize, dest: &mut Vec<u8>) 
         end_offset
     } else {
         0
+    }
+}
+
+fn is_empty_encoding_step(step: &EncodingStep, packet: &MqttPacket) -> bool {
+    match step {
+        EncodingStep::StringSlice(getter, offset) => { getter(packet).len() <= *offset }
+        EncodingStep::BytesSlice(getter, offset) => { getter(packet).len() <= *offset }
+        EncodingStep::IndexedString(getter, index, offset) => { getter(packet, *index).len() <= *offset }
+        EncodingStep::UserPropertyName(getter, index, offset) => { getter(packet, *index).name.len() <= *offset }
+        EncodingStep::UserPropertyValue(getter, index, offset) => { getter(packet, *index).value.len() <= *offset }
+        _ => { false }
     }
 }
 
